@@ -1,51 +1,402 @@
 mod chain;
+mod gen;
 mod obs;
 mod ops;
+mod oracle;
+mod pure;
 
 use chain::*;
 use ops::*;
-use std::io::{BufRead, Write};
+use oracle::*;
+use std::collections::BTreeMap;
+use std::io::Write;
 
 fn silence_panics() {
     std::panic::set_hook(Box::new(|_| {}));
 }
 
-fn replay(ops_path: &str, out_path: &str) {
-    let f = std::fs::File::open(ops_path).expect("ops file");
-    let mut out = std::io::BufWriter::new(std::fs::File::create(out_path).expect("out file"));
-    let mut c = Chain::new();
-    for line in std::io::BufReader::new(f).lines() {
-        let line = line.unwrap();
-        if line.trim().is_empty() {
-            continue;
+pub fn jesc(s: &str) -> String {
+    let mut o = String::new();
+    for ch in s.chars() {
+        match ch {
+            '"' => o.push_str("\\\""),
+            '\\' => o.push_str("\\\\"),
+            '\n' => o.push_str("\\n"),
+            '\t' => o.push(' '),
+            c if (c as u32) < 0x20 => o.push(' '),
+            c => o.push(c),
         }
-        match parse_line(&line) {
-            None => {
-                writeln!(out, "bad-op").unwrap();
+    }
+    o
+}
+
+/// does this successful op take the history out of the E3 envelope (trusted owner configuration)?
+fn leaves_envelope(op: &Op) -> bool {
+    match op {
+        Op::Tx { call, .. } => match call {
+            Call::Hub(HubMsg::UConfig(f)) => f.iter().any(|x| x.is_some()),
+            Call::Hub(HubMsg::UParams(_, u, _, _, _, rd)) => u.is_some() || rd.is_some(),
+            Call::Reward(RewMsg::UConfig(..)) | Call::Reward(RewMsg::USwapDenom(..)) => true,
+            Call::Disp(DispMsg::UConfig(h, r, sd, bd, _, _)) => h.is_some() || r.is_some() || sd.is_some() || bd.is_some(),
+            Call::Disp(DispMsg::USwap(..)) | Call::Disp(DispMsg::UOracle(..)) | Call::Disp(DispMsg::USwapDenom(..)) => true,
+            Call::Reg(RegMsg::UConfig(h)) => h.is_some(),
+            Call::Tok(TokMsg::UMinter(..)) => true,
+            _ => false,
+        },
+        Op::Env(EnvOp::UnbondingTime(_)) => false,
+        Op::Inst(_) => false,
+        _ => false,
+    }
+}
+
+pub struct Runner {
+    pub chain: Chain,
+    pub envelope: bool,
+    pub genesis_done: bool,
+    pub inst: std::collections::BTreeSet<&'static str>,
+    pub violations: Vec<(usize, usize, Violation)>, // (history, op index in file, violation)
+    pub kinds: BTreeMap<String, (u64, u64)>,
+    pub stats: BTreeMap<&'static str, u64>,
+    pub history: usize,
+    pub line_no: usize,
+    pub bsei_init_with_balances: bool,
+    pub saved: Option<(Chain, bool, bool)>,
+    /// E1 (magnitudes ≤ 10^18) has been left in this history
+    pub e1_broken: bool,
+    pub deep: bool,
+}
+
+impl Runner {
+    pub fn new() -> Runner {
+        Runner {
+            chain: Chain::new(),
+            envelope: true,
+            genesis_done: false,
+            inst: Default::default(),
+            violations: vec![],
+            kinds: BTreeMap::new(),
+            stats: BTreeMap::new(),
+            history: 0,
+            line_no: 0,
+            bsei_init_with_balances: false,
+            saved: None,
+            e1_broken: false,
+            deep: std::env::var("KRP_DEEP").map(|v| v == "1").unwrap_or(false),
+        }
+    }
+
+    fn bump(&mut self, k: &'static str) {
+        *self.stats.entry(k).or_insert(0) += 1;
+    }
+
+    /// apply one op, evaluate the oracles, return the output line
+    pub fn step(&mut self, op: &Op) -> String {
+        self.line_no += 1;
+        if let Op::Reset = op {
+            self.chain.apply(op);
+            self.envelope = true;
+            self.genesis_done = false;
+            self.inst.clear();
+            self.history += 1;
+            self.bsei_init_with_balances = false;
+            self.e1_broken = false;
+            return "ok | reset".to_string();
+        }
+        if let Op::Save = op {
+            self.saved = Some((self.chain.clone(), self.envelope, self.bsei_init_with_balances));
+            return "ok | save".to_string();
+        }
+        if let Op::Restore = op {
+            if let Some((c, e, b)) = self.saved.clone() {
+                self.chain = c;
+                self.envelope = e;
+                self.bsei_init_with_balances = b;
             }
-            Some(Op::Reset) => {
-                c.apply(&Op::Reset);
-                writeln!(out, "ok | reset").unwrap();
-            }
-            Some(op) => {
-                let r = c.apply(&op);
-                if r.ok {
-                    writeln!(out, "ok | {}", c.observe()).unwrap();
-                } else {
-                    writeln!(out, "err:{} | {}", r.err.replace('\n', " "), c.observe()).unwrap();
+            return "ok | restore".to_string();
+        }
+        let kind = op_kind(op);
+        let judged = self.inst.len() == 6;
+        let pre_chain = if judged { Some(self.chain.clone()) } else { None };
+        let pre = if judged { Some(snap(&self.chain)) } else { None };
+        let r = self.chain.apply(op);
+        let e = self.kinds.entry(kind.to_string()).or_insert((0, 0));
+        if r.ok {
+            e.0 += 1
+        } else {
+            e.1 += 1
+        }
+        if let Op::Inst(i) = op {
+            if r.ok {
+                self.inst.insert(match i {
+                    Inst::Hub { .. } => "hub",
+                    Inst::Bsei { bals, .. } => {
+                        self.bsei_init_with_balances = !bals.is_empty();
+                        "bsei"
+                    }
+                    Inst::Stsei { .. } => "stsei",
+                    Inst::Reward { .. } => "reward",
+                    Inst::Disp { .. } => "disp",
+                    Inst::Reg { .. } => "reg",
+                });
+                if judged {
+                    // a re-instantiation in the middle of a history resets that contract: the
+                    // cross-contract invariants are no longer meaningful for the rest of it
+                    self.envelope = false;
                 }
             }
         }
+        if let (Some(pre), Some(pre_chain)) = (pre, pre_chain) {
+            let post = snap(&self.chain);
+            let big = [post.supply_b, post.supply_s, post.raw[2], post.raw[3], post.hub_bank, post.delegated, post.rw.2, post.reward_bank, post.unbonding_total]
+                .iter()
+                .chain(post.bal_b.values())
+                .chain(post.bal_s.values())
+                .any(|x| *x > D);
+            if big {
+                self.e1_broken = true;
+            }
+            let effects = self.chain.effects.clone();
+            let cx = StepCtx {
+                pre: &pre,
+                post: &post,
+                op,
+                ok: r.ok,
+                effects: &effects,
+                chain_pre: &pre_chain,
+                chain_post: &self.chain,
+                err: &r.err,
+                deep: self.deep,
+                envelope: self.envelope && !self.bsei_init_with_balances && !self.e1_broken && self.chain.withdraw_addr == DISP,
+            };
+            if !self.e1_broken {
+                for vi in check_step(&cx) {
+                    self.violations.push((self.history, self.line_no, vi));
+                }
+            } else {
+                self.bump("ops_outside_e1");
+            }
+            // coverage statistics
+            if let Some(q) = post.q {
+                if q[0] < D {
+                    self.bump("states_with_bsei_rate_below_one");
+                }
+                if q[1] > D {
+                    self.bump("states_with_stsei_rate_above_one");
+                }
+                if q[2] == 0 && post.supply_b + post.batch.1 > 0 {
+                    self.bump("states_zero_backed_bsei");
+                }
+            }
+            if post.hist.len() > pre.hist.len() {
+                self.bump("undelegations");
+            }
+            let newly = post.hist.iter().filter(|h| h.released).count() as i64 - pre.hist.iter().filter(|h| h.released).count() as i64;
+            if newly > 0 {
+                self.bump("releases");
+                if newly > 1 {
+                    self.bump("releases_of_several_batches");
+                }
+            }
+            if pre.delegated > pre.raw[2] + pre.raw[3] {
+                self.bump("states_with_unbooked_delegation");
+            }
+            if pre.raw[2] + pre.raw[3] > pre.delegated {
+                self.bump("states_with_unrecognised_slash");
+            }
+            if let Op::Tx { call, .. } = op {
+                if !matches!(call, Call::Hub(HubMsg::UConfig(..))) {
+                    self.genesis_done = true;
+                }
+            }
+            if r.ok && self.genesis_done && leaves_envelope(op) {
+                self.envelope = false;
+            }
+        }
+        let flag = if self.e1_broken { "!E1" } else { "" };
+        if r.ok {
+            format!("ok{} | {}", flag, self.chain.observe())
+        } else {
+            format!("err{}:{} | {}", flag, r.err.replace('\n', " ").replace('|', "/"), self.chain.observe())
+        }
     }
+
+    pub fn report_json(&self, extra: &str) -> String {
+        let mut s = String::from("{");
+        s.push_str("\"violations\":[");
+        for (i, (h, l, vi)) in self.violations.iter().enumerate() {
+            if i > 0 {
+                s.push(',');
+            }
+            s.push_str(&format!(
+                "{{\"history\":{},\"line\":{},\"prop\":\"{}\",\"class\":\"{}\",\"detail\":\"{}\"}}",
+                h,
+                l,
+                vi.prop,
+                jesc(&vi.class),
+                jesc(&vi.detail)
+            ));
+        }
+        s.push_str("],\"kinds\":{");
+        for (i, (k, (a, b))) in self.kinds.iter().enumerate() {
+            if i > 0 {
+                s.push(',');
+            }
+            s.push_str(&format!("\"{}\":[{},{}]", k, a, b));
+        }
+        s.push_str("},\"stats\":{");
+        for (i, (k, a)) in self.stats.iter().enumerate() {
+            if i > 0 {
+                s.push(',');
+            }
+            s.push_str(&format!("\"{}\":{}", k, a));
+        }
+        s.push_str("}");
+        s.push_str(extra);
+        s.push('}');
+        s
+    }
+}
+
+fn cmd_replay(ops_path: &str, out_path: &str, report_path: Option<&String>) {
+    let text = std::fs::read_to_string(ops_path).expect("ops file");
+    let mut out = std::io::BufWriter::new(std::fs::File::create(out_path).expect("out file"));
+    let mut r = Runner::new();
+    for line in text.lines() {
+        if line.trim().is_empty() {
+            continue;
+        }
+        if line.starts_with("f ") {
+            writeln!(out, "{}", pure::eval_line(line)).unwrap();
+            r.line_no += 1;
+            continue;
+        }
+        match parse_line(line) {
+            None => {
+                r.line_no += 1;
+                writeln!(out, "bad-op").unwrap();
+            }
+            Some(op) => {
+                let o = r.step(&op);
+                writeln!(out, "{}", o).unwrap();
+            }
+        }
+    }
+    if let Some(p) = report_path {
+        std::fs::write(p, r.report_json("")).unwrap();
+    }
+}
+
+fn cmd_gen(a: &[String]) {
+    // gen <family> <seed> <histories> <len> <ops_out> <obs_out> <report_out>
+    let family = &a[0];
+    let seed: u64 = a[1].parse().unwrap();
+    let histories: usize = a[2].parse().unwrap();
+    let len: usize = a[3].parse().unwrap();
+    let mut ops_out = std::io::BufWriter::new(std::fs::File::create(&a[4]).unwrap());
+    let mut obs_out = std::io::BufWriter::new(std::fs::File::create(&a[5]).unwrap());
+    let mut r = Runner::new();
+    let mut total_ops = 0usize;
+    for h in 0..histories {
+        let mut g = gen::Gen::new(seed.wrapping_mul(1_000_003).wrapping_add(h as u64), family);
+        for op in g.genesis() {
+            writeln!(ops_out, "{}", op.to_line()).unwrap();
+            let o = r.step(&op);
+            writeln!(obs_out, "{}", o).unwrap();
+        }
+        for _ in 0..len {
+            let op = g.next_op(&r.chain);
+            writeln!(ops_out, "{}", op.to_line()).unwrap();
+            let o = r.step(&op);
+            writeln!(obs_out, "{}", o).unwrap();
+            total_ops += 1;
+        }
+    }
+    let extra = format!(",\"family\":\"{}\",\"seed\":{},\"histories\":{},\"ops\":{}", family, seed, histories, total_ops);
+    std::fs::write(&a[6], r.report_json(&extra)).unwrap();
+}
+
+/// shrink a single-history ops file while a violation of (prop, class-prefix) persists
+fn cmd_shrink(a: &[String]) {
+    // shrink <ops_in> <prop> <class_prefix> <ops_out>
+    let text = std::fs::read_to_string(&a[0]).unwrap();
+    let prop = &a[1];
+    let class = &a[2];
+    let lines: Vec<String> = text.lines().filter(|l| !l.trim().is_empty()).map(|s| s.to_string()).collect();
+    let fails = |ls: &[String]| -> bool {
+        let mut r = Runner::new();
+        for l in ls {
+            if let Some(op) = parse_line(l) {
+                r.step(&op);
+            }
+        }
+        r.violations.iter().any(|(_, _, v)| v.prop == prop && v.class.starts_with(class.as_str()))
+    };
+    let mut cur = lines.clone();
+    if !fails(&cur) {
+        std::fs::write(&a[3], cur.join("\n") + "\n").unwrap();
+        println!("not-reproduced");
+        return;
+    }
+    // truncate after the first failing op
+    {
+        let mut r = Runner::new();
+        let mut cut = cur.len();
+        for (i, l) in cur.iter().enumerate() {
+            if let Some(op) = parse_line(l) {
+                r.step(&op);
+            }
+            if r.violations.iter().any(|(_, _, v)| v.prop == prop && v.class.starts_with(class.as_str())) {
+                cut = i + 1;
+                break;
+            }
+        }
+        cur.truncate(cut);
+    }
+    // the genesis prefix (up to the first non inst/uconfig/env op) is kept
+    let mut budget = 400;
+    let mut chunk = (cur.len() / 2).max(1);
+    while chunk >= 1 && budget > 0 {
+        let mut i = 0;
+        let mut progressed = false;
+        while i < cur.len() && budget > 0 {
+            let end = (i + chunk).min(cur.len());
+            // never drop reset / inst lines
+            if cur[i..end].iter().any(|l| l.starts_with("reset") || l.starts_with("inst ")) {
+                i += 1;
+                continue;
+            }
+            let mut cand = cur.clone();
+            cand.drain(i..end);
+            budget -= 1;
+            if fails(&cand) {
+                cur = cand;
+                progressed = true;
+            } else {
+                i += chunk;
+            }
+        }
+        if chunk == 1 && !progressed {
+            break;
+        }
+        if !progressed || chunk > 1 {
+            chunk = if chunk > 1 { chunk / 2 } else { 1 };
+        }
+    }
+    std::fs::write(&a[3], cur.join("\n") + "\n").unwrap();
+    println!("shrunk {} -> {}", lines.len(), cur.len());
 }
 
 fn main() {
     silence_panics();
     let args: Vec<String> = std::env::args().collect();
     match args.get(1).map(|s| s.as_str()) {
-        Some("replay") => replay(&args[2], &args[3]),
+        Some("replay") => cmd_replay(&args[2], &args[3], args.get(4)),
+        Some("gen") => cmd_gen(&args[2..]),
+        Some("shrink") => cmd_shrink(&args[2..]),
+        Some("pure") => pure::cmd_pure(&args[2..]),
+        Some("matrix") => pure::cmd_matrix(&args[2..]),
         _ => {
-            eprintln!("usage: krp-harness replay <ops> <out>");
+            eprintln!("usage: krp-harness replay|gen|shrink|pure|matrix ...");
             std::process::exit(2);
         }
     }
